@@ -317,7 +317,9 @@ def recurrence_rules(chk, fi):
                inconclusive=bool(rebound) and set(rebound) <= carried)
     notz = sorted(s for s in state if s not in zeros_init)
     chk.ob("R-TINV", c + "{zero-state}", "state arrays are created by np.zeros (zero initial displacement and velocity)", not notz,
-           derived="not zero-initialised: %s" % notz if notz else "zeros: %s" % sorted(state), loc=fi.loc(loop))
+           derived="not zero-initialised: %s" % notz if notz else "zeros: %s" % sorted(state), loc=fi.loc(loop),
+           # state held in the parameters of an inlined helper (names carry the inliner's suffix): created by its caller, not read here
+           inconclusive=bool(notz) and all("__" in x for x in notz))
 
 
 def elementwise_rules(chk, r, q):
